@@ -36,6 +36,16 @@
 #define CANARY 16
 #define FILL 0xCD
 
+/* With -DDEBUG_BUILD (cbuild flavour "debug") the library's AWS_PRECONDITION / AWS_POSTCONDITION abort, so calls that
+ * are tolerated by the NDEBUG code but violate a documented precondition are skipped (the driver does the same after
+ * the op "mode debug"): forged lengths, front/back of an empty linked list, next(tail), prev(head), swap_nodes(n, n)
+ * on a detached node. */
+#ifdef DEBUG_BUILD
+#    define STRICT 1
+#else
+#    define STRICT 0
+#endif
+
 /* ---- allocator that fills fresh blocks ---- */
 static void *s_fill_acquire(struct aws_allocator *a, size_t size) {
     (void)a;
@@ -431,7 +441,7 @@ static void s_al_op(char **t, int n) {
             printf("bad-op\n");
             return;
         }
-        if (flen < ((size_t)1 << 32) || l->current_size == 0) { /* length != 0 with data == NULL is a fatal assert */
+        if (flen < ((size_t)1 << 32) || l->current_size == 0 || STRICT) { /* length != 0 with data == NULL is a fatal assert */
             printf("P skip\n");
             return;
         }
@@ -663,7 +673,7 @@ static void s_ll_op(char **t, int n) {
             printf("bad-op\n");
             return;
         }
-        if (a != b && (s_where[a] < 0 || s_where[b] < 0)) {
+        if ((a != b && (s_where[a] < 0 || s_where[b] < 0)) || (a == b && STRICT && s_where[a] < 0)) {
             printf("P skip\n");
             return;
         }
@@ -746,7 +756,7 @@ static void s_ll_op(char **t, int n) {
             printf("bad-op\n");
             return;
         }
-        if (!s_ll_init[j]) {
+        if (!s_ll_init[j] || (STRICT && strcmp(op, "empty") && s_count_in(j) == 0)) {
             printf("P skip\n");
             return;
         }
@@ -773,7 +783,7 @@ static void s_ll_op(char **t, int n) {
         } else if (s_ll_init[idx]) {
             x = kind == 2 ? &s_ll[idx].head : &s_ll[idx].tail;
         }
-        if (!x) {
+        if (!x || (STRICT && ((kind == 3 && !strcmp(op, "next")) || (kind == 2 && !strcmp(op, "prev"))))) {
             printf("P skip\n");
             return;
         }
@@ -815,6 +825,8 @@ int main(void) {
             s_al_op(t + 1, n - 1);
         } else if (!strcmp(t[0], "ll") && n >= 2) {
             s_ll_op(t + 1, n - 1);
+        } else if (!strcmp(t[0], "mode") && n == 2 && !strcmp(t[1], "debug")) {
+            printf(STRICT ? "P mode debug\n" : "P mode-unavailable (library not built with DEBUG_BUILD)\n");
         } else {
             printf("bad-op\n");
         }
